@@ -138,4 +138,295 @@ theorem encode_decF : ∀ (f : Nat) (bs : Bytes), bs.length ≤ f → encodeSE (
         simp only [List.length_drop, List.length_cons] at *; omega
       simp only [decF, encodeSE, h3, ih _ hlen, List.take_append_drop]
 
+
+/-! ### the range-based decoder (CPython's control flow) produces the same `str` -/
+
+theorem decF_fuel : ∀ (f g : Nat) (bs : Bytes), bs.length ≤ f → bs.length ≤ g → decF f bs = decF g bs := by
+  intro f
+  induction f with
+  | zero => intro g bs h _; cases bs with
+    | nil => cases g <;> rfl
+    | cons b t => simp at h
+  | succ f ih =>
+    intro g bs hf hg
+    cases bs with
+    | nil => cases g <;> rfl
+    | cons b t =>
+      cases g with
+      | zero => simp at hg
+      | succ g =>
+        obtain ⟨h1, h2, _⟩ := decStep_spec b t
+        have hl : ((b :: t).drop (decStep (b :: t)).2).length ≤ t.length := by
+          simp only [List.length_drop, List.length_cons] at *; omega
+        simp only [decF]
+        rw [ih g _ (by simp only [List.length_cons] at hf; omega) (by simp only [List.length_cons] at hg; omega)]
+
+theorem native_cons (b : UInt8) (t : Bytes) :
+    native (b :: t) = (decStep (b :: t)).1 :: native ((b :: t).drop (decStep (b :: t)).2) := by
+  obtain ⟨h1, h2, _⟩ := decStep_spec b t
+  have hl : ((b :: t).drop (decStep (b :: t)).2).length ≤ t.length := by
+    simp only [List.length_drop, List.length_cons] at *; omega
+  simp only [native, List.length_cons, decF]
+  rw [decF_fuel t.length _ _ hl (Nat.le_refl _)]
+
+theorem native_of_step (b : UInt8) (t : Bytes) (cp n : Nat) (h : decStep (b :: t) = (cp, n)) :
+    native (b :: t) = cp :: native ((b :: t).drop n) := by
+  rw [native_cons, h]
+
+/-- a continuation byte in lead position is escaped on its own -/
+theorem native_cont (b : UInt8) (t : Bytes) (h : isCont b.toNat = true) :
+    native (b :: t) = (0xDC00 + b.toNat) :: native t := by
+  simp only [isCont, Bool.and_eq_true, decide_eq_true_eq] at h
+  have h1 : ¬ b.toNat < 0x80 := by omega
+  have h2 : ¬ (0xC2 ≤ b.toNat ∧ b.toNat ≤ 0xDF) := by omega
+  have h3 : ¬ (0xE0 ≤ b.toNat ∧ b.toNat ≤ 0xEF) := by omega
+  have h4 : ¬ (0xF0 ≤ b.toNat ∧ b.toNat ≤ 0xF4) := by omega
+  have : decStep (b :: t) = (0xDC00 + b.toNat, 1) := by simp [decStep, h1, h2, h3, h4]
+  rw [native_of_step b t _ _ this]; rfl
+
+
+theorem ok3_iff (n0 n1 : Nat) : ok3 n0 n1 = true ↔
+    (isCont n1 = true ∧ ¬ (n0 = 0xE0 ∧ n1 < 0xA0) ∧ ¬ (n0 = 0xED ∧ 0xA0 ≤ n1)) := by
+  simp only [ok3, Bool.and_eq_true, Bool.or_eq_true, bne_iff_ne, ne_eq, decide_eq_true_eq]
+  constructor
+  · rintro ⟨⟨h1, h2⟩, h3⟩; refine ⟨h1, ?_, ?_⟩ <;> omega
+  · rintro ⟨h1, h2, h3⟩; refine ⟨⟨h1, ?_⟩, ?_⟩ <;> omega
+
+theorem ok4_iff (n0 n1 : Nat) : ok4 n0 n1 = true ↔
+    (isCont n1 = true ∧ ¬ (n0 = 0xF0 ∧ n1 < 0x90) ∧ ¬ (n0 = 0xF4 ∧ 0x90 ≤ n1)) := by
+  simp only [ok4, Bool.and_eq_true, Bool.or_eq_true, bne_iff_ne, ne_eq, decide_eq_true_eq]
+  constructor
+  · rintro ⟨⟨h1, h2⟩, h3⟩; refine ⟨h1, ?_, ?_⟩ <;> omega
+  · rintro ⟨h1, h2, h3⟩; refine ⟨⟨h1, ?_⟩, ?_⟩ <;> omega
+
+theorem bad3_false_iff (n0 n1 : Nat) : bad3 n0 n1 = false ↔ ok3 n0 n1 = true := by
+  rw [ok3_iff]
+  simp only [bad3, Bool.or_eq_false_iff, Bool.not_eq_false']
+  by_cases h : n1 < 0xA0
+  · simp only [if_pos h, beq_eq_false_iff_ne, ne_eq]
+    constructor
+    · rintro ⟨h1, h2⟩; exact ⟨h1, by omega, by omega⟩
+    · rintro ⟨h1, h2, h3⟩; exact ⟨h1, fun e => h2 ⟨e, h⟩⟩
+  · simp only [if_neg h, beq_eq_false_iff_ne, ne_eq]
+    constructor
+    · rintro ⟨h1, h2⟩; exact ⟨h1, by omega, by omega⟩
+    · rintro ⟨h1, h2, h3⟩; exact ⟨h1, fun e => h3 ⟨e, by omega⟩⟩
+
+theorem bad4_false_iff (n0 n1 : Nat) : bad4 n0 n1 = false ↔ ok4 n0 n1 = true := by
+  rw [ok4_iff]
+  simp only [bad4, Bool.or_eq_false_iff, Bool.not_eq_false']
+  by_cases h : n1 < 0x90
+  · simp only [if_pos h, beq_eq_false_iff_ne, ne_eq]
+    constructor
+    · rintro ⟨h1, h2⟩; exact ⟨h1, by omega, by omega⟩
+    · rintro ⟨h1, h2, h3⟩; exact ⟨h1, fun e => h2 ⟨e, h⟩⟩
+  · simp only [if_neg h, beq_eq_false_iff_ne, ne_eq]
+    constructor
+    · rintro ⟨h1, h2⟩; exact ⟨h1, by omega, by omega⟩
+    · rintro ⟨h1, h2, h3⟩; exact ⟨h1, fun e => h3 ⟨e, by omega⟩⟩
+
+
+set_option linter.unusedSimpArgs false
+
+theorem esc2 (b0 b1 : UInt8) (t : Bytes) (h0 : decStep (b0 :: b1 :: t) = (0xDC00 + b0.toNat, 1))
+    (h1 : isCont b1.toNat = true) :
+    native (b0 :: b1 :: t) = escAll [b0, b1] ++ native t := by
+  rw [native_of_step b0 _ _ _ h0]
+  simp only [List.drop_succ_cons, List.drop_zero]
+  rw [native_cont b1 t h1]; rfl
+
+theorem esc3 (b0 b1 b2 : UInt8) (t : Bytes) (h0 : decStep (b0 :: b1 :: b2 :: t) = (0xDC00 + b0.toNat, 1))
+    (h1 : isCont b1.toNat = true) (h2 : isCont b2.toNat = true) :
+    native (b0 :: b1 :: b2 :: t) = escAll [b0, b1, b2] ++ native t := by
+  rw [native_of_step b0 _ _ _ h0]
+  simp only [List.drop_succ_cons, List.drop_zero]
+  rw [native_cont b1 _ h1, native_cont b2 t h2]; rfl
+
+theorem esc1 (b0 : UInt8) (t : Bytes) (h0 : decStep (b0 :: t) = (0xDC00 + b0.toNat, 1)) :
+    native (b0 :: t) = escAll [b0] ++ native t := by
+  rw [native_of_step b0 _ _ _ h0]; rfl
+
+/-- one round of CPython's loop = one or more steps of the byte-at-a-time decoder -/
+theorem stepR_spec (b : UInt8) (t : Bytes) :
+    1 ≤ (decStepR (b :: t)).2 ∧ (decStepR (b :: t)).2 ≤ (b :: t).length ∧
+    native (b :: t) = (decStepR (b :: t)).1 ++ native ((b :: t).drop (decStepR (b :: t)).2) := by
+  have hb := UInt8.toNat_lt b
+  by_cases h1 : b.toNat < 0x80
+  · have hs : decStep (b :: t) = (b.toNat, 1) := by simp [decStep, h1]
+    simp [decStepR, h1, native_of_step b t _ _ hs]
+  by_cases h2 : b.toNat < 0xE0
+  · by_cases h2a : b.toNat < 0xC2
+    · have r2 : ¬ (0xC2 ≤ b.toNat ∧ b.toNat ≤ 0xDF) := by omega
+      have r3 : ¬ (0xE0 ≤ b.toNat ∧ b.toNat ≤ 0xEF) := by omega
+      have r4 : ¬ (0xF0 ≤ b.toNat ∧ b.toNat ≤ 0xF4) := by omega
+      have hs : decStep (b :: t) = (0xDC00 + b.toNat, 1) := by simp [decStep, h1, r2, r3, r4]
+      simp [decStepR, h1, h2, h2a, esc1 b t hs]
+    · have r2 : 0xC2 ≤ b.toNat ∧ b.toNat ≤ 0xDF := by omega
+      cases t with
+      | nil =>
+        have hs : decStep [b] = (0xDC00 + b.toNat, 1) := by simp [decStep, h1, r2]
+        simp [decStepR, h1, h2, h2a, esc1 b [] hs]
+      | cons b1 t =>
+        by_cases hc : isCont b1.toNat = true
+        · have hs : decStep (b :: b1 :: t) = ((b.toNat - 0xC0) * 64 + (b1.toNat - 0x80), 2) := by
+            simp [decStep, h1, r2, hc]
+          simp [decStepR, h1, h2, h2a, hc, native_of_step b _ _ _ hs]
+        · have hs : decStep (b :: b1 :: t) = (0xDC00 + b.toNat, 1) := by simp [decStep, h1, r2, hc]
+          simp [decStepR, h1, h2, h2a, hc, esc1 b _ hs]
+  by_cases h3 : b.toNat < 0xF0
+  · have r2 : ¬ (0xC2 ≤ b.toNat ∧ b.toNat ≤ 0xDF) := by omega
+    have r3 : 0xE0 ≤ b.toNat ∧ b.toNat ≤ 0xEF := by omega
+    cases t with
+    | nil =>
+      have hs : decStep [b] = (0xDC00 + b.toNat, 1) := by simp [decStep, h1, r2, r3]
+      simp [decStepR, h1, h2, h3, esc1 b [] hs]
+    | cons b1 t =>
+      cases t with
+      | nil =>
+        have hs : decStep [b, b1] = (0xDC00 + b.toNat, 1) := by simp [decStep, h1, r2, r3]
+        by_cases hbad : bad3 b.toNat b1.toNat = true
+        · simp [decStepR, h1, h2, h3, hbad, esc1 b _ hs]
+        · have hbad' : bad3 b.toNat b1.toNat = false := by simpa using hbad
+          have hc : isCont b1.toNat = true := ((ok3_iff _ _).mp ((bad3_false_iff _ _).mp hbad')).1
+          simp [decStepR, h1, h2, h3, hbad', esc2 b b1 [] hs hc]
+      | cons b2 t =>
+        by_cases hc1 : isCont b1.toNat = true
+        · by_cases hE0 : b.toNat = 0xE0 ∧ b1.toNat < 0xA0
+          · have hok : ok3 b.toNat b1.toNat = false := by
+              cases hh : ok3 b.toNat b1.toNat with
+              | false => rfl
+              | true => exact absurd hE0 ((ok3_iff _ _).mp hh).2.1
+            have hs : decStep (b :: b1 :: b2 :: t) = (0xDC00 + b.toNat, 1) := by simp [decStep, h1, r2, r3, hok]
+            simp [decStepR, h1, h2, h3, hc1, hE0.1, hE0.2, esc1 b _ hs]
+          · by_cases hED : b.toNat = 0xED ∧ 0xA0 ≤ b1.toNat
+            · have hok : ok3 b.toNat b1.toNat = false := by
+                cases hh : ok3 b.toNat b1.toNat with
+                | false => rfl
+                | true => exact absurd hED ((ok3_iff _ _).mp hh).2.2
+              have hs : decStep (b :: b1 :: b2 :: t) = (0xDC00 + b.toNat, 1) := by simp [decStep, h1, r2, r3, hok]
+              have hne : ¬ (b.toNat = 0xE0) := by omega
+              simp [decStepR, h1, h2, h3, hc1, hne, hED.1, hED.2, esc1 b _ hs]
+            · have hok : ok3 b.toNat b1.toNat = true := (ok3_iff _ _).mpr ⟨hc1, hE0, hED⟩
+              have g1 : (b.toNat == 0xE0 && decide (b1.toNat < 0xA0)) = false := by
+                cases hx : (b.toNat == 0xE0 && decide (b1.toNat < 0xA0)) with
+                | false => rfl
+                | true => simp at hx; exact absurd hx hE0
+              have g2 : (b.toNat == 0xED && decide (0xA0 ≤ b1.toNat)) = false := by
+                cases hx : (b.toNat == 0xED && decide (0xA0 ≤ b1.toNat)) with
+                | false => rfl
+                | true => simp at hx; exact absurd hx hED
+              by_cases hc2 : isCont b2.toNat = true
+              · have hs : decStep (b :: b1 :: b2 :: t) =
+                    ((b.toNat - 0xE0) * 4096 + (b1.toNat - 0x80) * 64 + (b2.toNat - 0x80), 3) := by
+                  simp [decStep, h1, r2, r3, hok, hc2]
+                simp [decStepR, h1, h2, h3, hc1, g1, g2, hc2, native_of_step b _ _ _ hs]
+              · have hs : decStep (b :: b1 :: b2 :: t) = (0xDC00 + b.toNat, 1) := by
+                  simp [decStep, h1, r2, r3, hok, hc2]
+                simp [decStepR, h1, h2, h3, hc1, g1, g2, hc2, esc2 b b1 _ hs hc1]
+        · have hok : ok3 b.toNat b1.toNat = false := by
+            cases hh : ok3 b.toNat b1.toNat with
+            | false => rfl
+            | true => exact absurd ((ok3_iff _ _).mp hh).1 hc1
+          have hs : decStep (b :: b1 :: b2 :: t) = (0xDC00 + b.toNat, 1) := by simp [decStep, h1, r2, r3, hok]
+          simp [decStepR, h1, h2, h3, hc1, esc1 b _ hs]
+  by_cases h4 : b.toNat < 0xF5
+  · have r2 : ¬ (0xC2 ≤ b.toNat ∧ b.toNat ≤ 0xDF) := by omega
+    have r3 : ¬ (0xE0 ≤ b.toNat ∧ b.toNat ≤ 0xEF) := by omega
+    have r4 : 0xF0 ≤ b.toNat ∧ b.toNat ≤ 0xF4 := by omega
+    cases t with
+    | nil =>
+      have hs : decStep [b] = (0xDC00 + b.toNat, 1) := by simp [decStep, h1, r2, r3, r4]
+      simp [decStepR, h1, h2, h3, h4, esc1 b [] hs]
+    | cons b1 t =>
+      cases t with
+      | nil =>
+        have hs : decStep [b, b1] = (0xDC00 + b.toNat, 1) := by simp [decStep, h1, r2, r3, r4]
+        by_cases hbad : bad4 b.toNat b1.toNat = true
+        · simp [decStepR, h1, h2, h3, h4, hbad, esc1 b _ hs]
+        · have hbad' : bad4 b.toNat b1.toNat = false := by simpa using hbad
+          have hc : isCont b1.toNat = true := ((ok4_iff _ _).mp ((bad4_false_iff _ _).mp hbad')).1
+          simp [decStepR, h1, h2, h3, h4, hbad', esc2 b b1 [] hs hc]
+      | cons b2 t =>
+        cases t with
+        | nil =>
+          have hs : decStep [b, b1, b2] = (0xDC00 + b.toNat, 1) := by simp [decStep, h1, r2, r3, r4]
+          by_cases hbad : bad4 b.toNat b1.toNat = true
+          · simp [decStepR, h1, h2, h3, h4, hbad, esc1 b _ hs]
+          · have hbad' : bad4 b.toNat b1.toNat = false := by simpa using hbad
+            have hc : isCont b1.toNat = true := ((ok4_iff _ _).mp ((bad4_false_iff _ _).mp hbad')).1
+            by_cases hc2 : isCont b2.toNat = true
+            · simp [decStepR, h1, h2, h3, h4, hbad', hc2, esc3 b b1 b2 [] hs hc hc2]
+            · simp [decStepR, h1, h2, h3, h4, hbad', hc2, esc2 b b1 [b2] hs hc]
+        | cons b3 t =>
+          by_cases hc1 : isCont b1.toNat = true
+          · by_cases hF0 : b.toNat = 0xF0 ∧ b1.toNat < 0x90
+            · have hok : ok4 b.toNat b1.toNat = false := by
+                cases hh : ok4 b.toNat b1.toNat with
+                | false => rfl
+                | true => exact absurd hF0 ((ok4_iff _ _).mp hh).2.1
+              have hs : decStep (b :: b1 :: b2 :: b3 :: t) = (0xDC00 + b.toNat, 1) := by
+                simp [decStep, h1, r2, r3, r4, hok]
+              simp [decStepR, h1, h2, h3, h4, hc1, hF0.1, hF0.2, esc1 b _ hs]
+            · by_cases hF4 : b.toNat = 0xF4 ∧ 0x90 ≤ b1.toNat
+              · have hok : ok4 b.toNat b1.toNat = false := by
+                  cases hh : ok4 b.toNat b1.toNat with
+                  | false => rfl
+                  | true => exact absurd hF4 ((ok4_iff _ _).mp hh).2.2
+                have hs : decStep (b :: b1 :: b2 :: b3 :: t) = (0xDC00 + b.toNat, 1) := by
+                  simp [decStep, h1, r2, r3, r4, hok]
+                have hne : ¬ (b.toNat = 0xF0) := by omega
+                simp [decStepR, h1, h2, h3, h4, hc1, hne, hF4.1, hF4.2, esc1 b _ hs]
+              · have hok : ok4 b.toNat b1.toNat = true := (ok4_iff _ _).mpr ⟨hc1, hF0, hF4⟩
+                have g1 : (b.toNat == 0xF0 && decide (b1.toNat < 0x90)) = false := by
+                  cases hx : (b.toNat == 0xF0 && decide (b1.toNat < 0x90)) with
+                  | false => rfl
+                  | true => simp at hx; exact absurd hx hF0
+                have g2 : (b.toNat == 0xF4 && decide (0x90 ≤ b1.toNat)) = false := by
+                  cases hx : (b.toNat == 0xF4 && decide (0x90 ≤ b1.toNat)) with
+                  | false => rfl
+                  | true => simp at hx; exact absurd hx hF4
+                by_cases hc2 : isCont b2.toNat = true
+                · by_cases hc3 : isCont b3.toNat = true
+                  · have hs : decStep (b :: b1 :: b2 :: b3 :: t) =
+                        ((b.toNat - 0xF0) * 262144 + (b1.toNat - 0x80) * 4096 + (b2.toNat - 0x80) * 64
+                          + (b3.toNat - 0x80), 4) := by
+                      simp [decStep, h1, r2, r3, r4, hok, hc2, hc3]
+                    simp [decStepR, h1, h2, h3, h4, hc1, g1, g2, hc2, hc3, native_of_step b _ _ _ hs]
+                  · have hs : decStep (b :: b1 :: b2 :: b3 :: t) = (0xDC00 + b.toNat, 1) := by
+                      simp [decStep, h1, r2, r3, r4, hok, hc2, hc3]
+                    simp [decStepR, h1, h2, h3, h4, hc1, g1, g2, hc2, hc3, esc3 b b1 b2 _ hs hc1 hc2]
+                · have hs : decStep (b :: b1 :: b2 :: b3 :: t) = (0xDC00 + b.toNat, 1) := by
+                    simp [decStep, h1, r2, r3, r4, hok, hc2]
+                  simp [decStepR, h1, h2, h3, h4, hc1, g1, g2, hc2, esc2 b b1 _ hs hc1]
+          · have hok : ok4 b.toNat b1.toNat = false := by
+              cases hh : ok4 b.toNat b1.toNat with
+              | false => rfl
+              | true => exact absurd ((ok4_iff _ _).mp hh).1 hc1
+            have hs : decStep (b :: b1 :: b2 :: b3 :: t) = (0xDC00 + b.toNat, 1) := by
+              simp [decStep, h1, r2, r3, r4, hok]
+            simp [decStepR, h1, h2, h3, h4, hc1, esc1 b _ hs]
+  · have r2 : ¬ (0xC2 ≤ b.toNat ∧ b.toNat ≤ 0xDF) := by omega
+    have r3 : ¬ (0xE0 ≤ b.toNat ∧ b.toNat ≤ 0xEF) := by omega
+    have r4 : ¬ (0xF0 ≤ b.toNat ∧ b.toNat ≤ 0xF4) := by omega
+    have hs : decStep (b :: t) = (0xDC00 + b.toNat, 1) := by simp [decStep, h1, r2, r3, r4]
+    simp [decStepR, h1, h2, h3, h4, esc1 b t hs]
+
+/-- **CPython's range-based surrogateescape decoding = the byte-at-a-time model**, for every byte string -/
+theorem decFR_eq_native : ∀ (f : Nat) (bs : Bytes), bs.length ≤ f → decFR f bs = native bs := by
+  intro f
+  induction f with
+  | zero => intro bs h; cases bs with
+    | nil => rfl
+    | cons b t => simp at h
+  | succ f ih =>
+    intro bs h
+    cases bs with
+    | nil => rfl
+    | cons b t =>
+      obtain ⟨h1, h2, h3⟩ := stepR_spec b t
+      have hl : ((b :: t).drop (decStepR (b :: t)).2).length ≤ f := by
+        simp only [List.length_drop, List.length_cons] at *; omega
+      simp only [decFR]
+      rw [ih _ hl, ← h3]
+
 end MitmVerif.C35.StrLemmas
